@@ -19,8 +19,10 @@ PROGRAMS = [
     ("bom", b"\xef\xbb\xbfint  z ;\n"),
     ("crlf", b"int  q;\r\nint r ;\r\n"),
     ("cmt", b"// c\nvoid g( void ) { }\n"),
+    ("ptr", b"int* p;\nchar* q = 0;\n"),      # under the 'move' configuration the formatted text has the SAME SIZE but other bytes
 ]
-CFGS = {"defaults": "", "sp": "indent_with_tabs=0\nindent_columns=3\nsp_assign=remove\n"}
+CFGS = {"defaults": "", "sp": "indent_with_tabs=0\nindent_columns=3\nsp_assign=remove\n",
+        "move": "indent_with_tabs=0\nsp_before_ptr_star=force\nsp_after_ptr_star=remove\n"}
 
 
 def perturb1(f):
@@ -265,6 +267,8 @@ def check(ctx):
                 viol("if-changed-stray-files", cfgname, data, {"mode": mode, "files": ",".join(extra)})
             if not src_ok:
                 viol("if-changed-modified-source", cfgname, data, {"mode": mode})
+            if rout != data and len(rout) == len(data):
+                outcomes["ifc-same-size-different-bytes"] = outcomes.get("ifc-same-size-different-bytes", 0) + 1
             if len(samples) < 6 and rout != data:
                 samples.append({"mode": mode, "input": data.decode("latin-1")[:60], "wrote": produced is not None})
         if pool.cut:
